@@ -40,7 +40,9 @@ NotInner == {AndP(NotP(p), q) : p \in {Atom("=", Col("n"), Const(2)), Atom("<", 
 PredSeq == SetToSeq(ColConst) \o SetToSeq(ColCol) \o SetToSeq(NullTests) \o SetToSeq(Conj) \o SetToSeq(Negs) \o SetToSeq(NotInner)
 
 \* ---- group queries
-KeySets == <<<<>>, <<"s">>, <<"n">>, <<"ns">>, <<"i">>, <<"f">>, <<"s", "n">>, <<"ns", "nf">>, <<"i", "s", "ns">>, <<"l">>, <<"z">>>>
+\* (grouping by the dense row number id, with a filter that removes the first rows: every row is its own group and
+\* every group is moved when the group table is compacted; <<"i", "s">>: a sparse two-column key without NULLs)
+KeySets == <<<<>>, <<"s">>, <<"n">>, <<"ns">>, <<"i">>, <<"f">>, <<"s", "n">>, <<"ns", "nf">>, <<"i", "s", "ns">>, <<"l">>, <<"z">>, <<"id">>, <<"i", "s">>>>
 A(f, c) == [f |-> f, c |-> c]
 AggAll == <<[f |-> "count1", c |-> ""], A("count", "n"), A("sum", "i"), A("sum", "n"), A("min", "i"), A("max", "n"), A("min", "f"),
             A("max", "nf"), A("avg", "i"), A("avg", "n"), A("sum", "f"), A("sum", "nf"), A("count", "ns"), A("count", "z"), A("sum", "z"), A("max", "l")>>
@@ -48,7 +50,8 @@ AggAll == <<[f |-> "count1", c |-> ""], A("count", "n"), A("sum", "i"), A("sum",
 AggNoZ == SelectSeq(AggAll, LAMBDA a : a.c # "z" /\ ~(a.f = "avg" /\ a.c \in {"n", "nf"}))   \* (AVG over nullable columns: KF8)
 AggCore == SelectSeq(AggNoZ, LAMBDA a : a.c # "l")
 AggSets == <<AggCore, AggNoZ>> \o [j \in 1..Len(AggAll) |-> <<AggAll[j]>>] \o << <<A("sum", "i"), A("count", "n")>>, <<A("min", "n"), A("max", "i"), [f |-> "count1", c |-> ""]>> >>
-Wheres == <<TrueP, Atom(">", Col("i"), Const(1)), NotNullP(Col("n")), Atom("=", Col("s"), Const(2)), Atom("<", Col("nf"), Const(5)), Atom(">", Col("i"), Const(9))>>
+Wheres == <<TrueP, Atom(">", Col("i"), Const(1)), NotNullP(Col("n")), Atom("=", Col("s"), Const(2)), Atom("<", Col("nf"), Const(5)), Atom(">", Col("i"), Const(9)),
+           Atom(">", Col("id"), Const(0)), Atom(">=", Col("id"), Const(2))>>
 GQueries == [q \in 1..(Len(KeySets) * Len(AggSets) * Len(Wheres)) |->
     LET x == q - 1
         ki == (x % Len(KeySets)) + 1
